@@ -145,3 +145,16 @@ func Explore(name string, sc Scenario, maxStates int, deadline time.Time) Report
 	rep.WallS = time.Since(t0).Seconds()
 	return rep
 }
+
+// Replay runs one recorded schedule (no exploration) and returns the trace and
+// the oracle's verdict.
+func Replay(sc Scenario, schedule []int) (trace []string, problems []string, diverged bool) {
+	main, check := sc()
+	ch := &dfsChooser{prefix: schedule}
+	s, res := Run(main, ch, nil, true)
+	for _, p := range res.Panics {
+		problems = append(problems, "panic: "+p)
+	}
+	problems = append(problems, check(res)...)
+	return s.Trace, problems, ch.diverged
+}
